@@ -1,5 +1,6 @@
 import LinOp.Core.Parse
 import LinOp.C06.Model
+import LinOp.C06.Postprocess
 /-! Line-protocol driver for the C06 model (no Mathlib).
   sel <root|rootinv|diag> <base|kron> <n1,n2,..> <maxChol> <maxRoot> <fast 0/1> <method|none> <cholOk 0/1> <cache: s d l bits e.g. 000>
   hist <n> <entry:method:maxChol:maxRoot:fast;…>   source (own | hit:i | side:i) of every result of a call history
@@ -8,7 +9,9 @@ import LinOp.C06.Model
   upper <n> <L>                         upper factor from the lower one
   svd|svdpos <n> <Q> <w>                U;S;V of the base `_svd` from an eigendecomposition (sign 0 = 0 | +1)
   kpadlo <asw|fix> <d> <lam,…>          predicted spectrum of R Rᵀ, constant-factor branch
-  symm <lam,…>                          predicted inner spectrum, symmetrised branch -/
+  symm <lam,…>                          predicted inner spectrum, symmetrised branch
+  post <n> <k> <c> <P> <B> <A_1..A_B> <T_1..T_B> <R_{0,1}..R_{0,B}> … <R_{P-1,1}..R_{P-1,B}>
+                                        index of the candidate `_postprocess_lanczos_root_inv_decomp` returns -/
 open LinOp LinOp.C06 LinOp.Parse
 
 def parseMethod? (s : String) : Option (Option Method) :=
@@ -59,6 +62,27 @@ def runSvd (sg : Rat → Rat) (n q w : String) : String :=
     let (u, s, v) := svdFromSymeig sg ratAbs (getM q n n) (fun i : Fin n => wa[i.1]!)
     out u ++ " | " ++ showList showRat ((List.finRange n).map s) ++ " | " ++ out v
   | _, _, _ => "bad-op"
+
+/-- integer square root by Newton's iteration (executable stand-in for the `sqrt` parameter) -/
+def natSqrtAux (x : Nat) : Nat → Nat → Nat
+  | 0, r => r
+  | fuel + 1, r => let r' := (r + x / r) / 2; if r' < r then natSqrtAux x fuel r' else r
+
+def natSqrt (x : Nat) : Nat := if x < 2 then x else natSqrtAux x (x.log2 + 8) (2 ^ (x.log2 / 2 + 1))
+
+/-- `√(p/q) = √(p·q)/q`, to 40 decimal digits. -/
+def ratSqrt (x : Rat) : Rat :=
+  if x ≤ 0 then 0 else
+    let s : Nat := 10 ^ 40
+    (natSqrt (x.num.toNat * x.den * s * s) : Rat) / ((x.den * s : Nat) : Rat)
+
+def runPost (n k c P B : Nat) (ms : List (Array (Array Rat))) : String :=
+  if ms.length ≠ 2 * B + P * B || P = 0 then "bad-op" else
+  let As := (ms.take B).map fun a => getM a n n
+  let Ts := ((ms.drop B).take B).map fun a => getM a n c
+  let rest := (ms.drop (2 * B)).toArray
+  let cands : Nat → List (Mat Rat n k) := fun p => (List.range B).map fun b => getM (rest[p * B + b]!) n k
+  toString (postprocessIndex ratSqrt As Ts cands P)
 
 def showSrc : Src → String
   | .own => "own" | .hit i => s!"hit:{i}" | .side i => s!"side:{i}"
@@ -120,6 +144,10 @@ def run (line : String) : String :=
     match parseRats? lam with
     | some lam => showList showRat (kpadloSymmInnerSpectrum lam)
     | _ => "bad-op"
+  | "post" :: n :: k :: c :: P :: B :: ms =>
+    match n.toNat?, k.toNat?, c.toNat?, P.toNat?, B.toNat?, ms.mapM parseMat? with
+    | some n, some k, some c, some P, some B, some ms => runPost n k c P B ms
+    | _, _, _, _, _, _ => "bad-op"
   | _ => "bad-op"
 
 def main : IO Unit := do
